@@ -12,6 +12,7 @@ import (
 	"os"
 	"os/exec"
 	"runtime/debug"
+	"runtime/pprof"
 	"strings"
 	"sync"
 	"time"
@@ -26,13 +27,20 @@ const (
 )
 
 func workerMain() {
-	debug.SetMaxStack(256 << 20) // a runaway recursion dies after 256 MB instead of 1 GB
+	debug.SetMaxStack(256 << 20)                  // a runaway recursion dies after 256 MB instead of 1 GB
+	if pf := os.Getenv("VERIF_PPROF"); pf != "" { // triage aid: CPU profile of the worker
+		if f, err := os.Create(pf); err == nil {
+			pprof.StartCPUProfile(f)
+			defer f.Close()
+		}
+	}
 	rd := bufio.NewReaderSize(os.Stdin, 1<<22)
 	wr := bufio.NewWriter(os.Stdout)
 	for {
 		line, err := rd.ReadString('\n')
 		if len(strings.TrimSpace(line)) > 0 {
 			out, exit := workerHandle(strings.TrimSpace(line))
+			pprof.StopCPUProfile() // no-op unless VERIF_PPROF started one
 			wr.WriteString(out)
 			wr.WriteByte('\n')
 			wr.Flush()
@@ -104,9 +112,10 @@ func (w *worker) call(d *Doc, ms int) (Outcome, bool) {
 		line string
 		err  error
 	}
-	watchdog := parentTimeout
+	// the worker's own watchdog counts CPU time with a wall-clock cap of 6x
+	watchdog := 6*workerTimeout + (parentTimeout - workerTimeout)
 	if ms > 0 {
-		watchdog = time.Duration(ms)*time.Millisecond + (parentTimeout - workerTimeout)
+		watchdog = 6*time.Duration(ms)*time.Millisecond + (parentTimeout - workerTimeout)
 	}
 	ch := make(chan rd, 1)
 	go func() {
@@ -144,6 +153,11 @@ func fatalOutcome(stderr string) Outcome {
 		}
 	}
 	o.Site = "fatal:" + kind + "@" + site
+	if kind == "out-of-memory" {
+		// where the allocation fails is arbitrary: the site is the kind alone
+		o.Site = "fatal:out-of-memory"
+		o.Msg += " (allocating in " + site + ")"
+	}
 	if len(o.Frames) > 10 {
 		o.Frames = o.Frames[:10]
 	}
